@@ -288,6 +288,46 @@ theorem C31_no_uniform_notion (isSet : Val → Prop) :
       subst hn
       exact hx hs
 
+/-! ## Outside the property's quantifier: lazy values, `readonly` / `path_template` fields, `True` on an optional
+      file-set field.  The model carries them (`Val.lazy`, `Field.exempt`, `Field.optFileset`) because the code has a
+      line for each; the correspondence exercises them in a separate stream (workflow node inputs, `shell.arg(readonly=
+      True)`, `shell.outarg(path_template=…)`); `C31_partial` excludes them through `Closed` and `Uniform`.  What the
+      code does there, for the record: -/
+
+/-- a field holding a lazy value is skipped by the loop (`if is_lazy(value): continue`), whatever its requirements -/
+theorem C31_lazy_field_skipped (d : Def) (a : Assignment) (f : Field) (h : a f.name = .lazy) :
+    fieldViolations d a f = [] := by
+  unfold fieldViolations triggers
+  simp [h]
+
+/-- …so `a` (lazy) with an unmet requirement is accepted at workflow-construction time although, read as "set", it
+    violates the property; as a *required* field a lazy value counts as present, and in an exclusive group it counts
+    as set. -/
+theorem C31_lazy_behaviour :
+    ruleViolations wReqEmptyDef (assignOf [("a", .lazy), ("b", .none)]) = [] ∧
+    ¬ RulesOK wReqEmptyDef (assignOf [("a", .lazy), ("b", .none)]) ∧
+    ruleViolations wReqEmptyDef (assignOf [("a", .str "x"), ("b", .lazy)]) = [] ∧
+    ruleViolations wXorDef (assignOf [("a", .lazy), ("b", .str "x")]) = [.xorMany ["a", "b"]] := by
+  have hwf : WF wReqEmptyDef := by decide
+  refine ⟨by decide, ?_, by decide, by decide⟩
+  rw [← rulesOKb_iff _ _ hwf]
+  decide
+
+/-- a `readonly` / `path_template` field left unset raises no "Mandatory field" error, but `attrs.NOTHING` still
+    triggers its requirements -/
+theorem C31_exempt_unset_triggers :
+    ruleViolations { fields := [{ optStr "ro" [[⟨"b", none⟩]] with exempt := true }, optStr "b"], xor := [] }
+      (assignOf [("b", .none)]) = [.requires "ro"] := by decide
+
+/-- `True` on an optional file-set field (an optional `outarg`: "use the path template") does not trigger the field's
+    requirements, but counts as set in an exclusive group and satisfies a requirement on it -/
+theorem C31_optfileset_true :
+    ruleViolations { fields := [{ optStr "out" [[⟨"b", none⟩]] with optFileset := true, exempt := true }, optStr "b"],
+                     xor := [] } (assignOf [("out", .bool true), ("b", .none)]) = [] ∧
+    ruleViolations { fields := [{ optStr "out" with optFileset := true, exempt := true }, optStr "b" [[⟨"out", none⟩]]],
+                     xor := [[some "out", some "b"]] } (assignOf [("out", .bool true), ("b", .str "x")])
+      = [.xorMany ["out", "b"]] := by decide
+
 /-! ## Non-vacuity of the hypotheses -/
 
 /-- a definition with two alternative requirement sets (one with allowed values), a mandatory field and two
